@@ -3,6 +3,8 @@ import os
 import tempfile
 import time
 
+from contracts.integrate_rt import rt_integrate  # noqa: F401
+
 LEVEL = 'proof'
 EXPLANATION = ('create_interface_config merge for none/each/all/pairs of the 8 settings and the unknown-key rejection; '
                'TrajectoryCalc.__init__ keeps its own Config and builds gravity from it; get_calc_step; the global step '
@@ -12,11 +14,12 @@ EXPLANATION = ('create_interface_config merge for none/each/all/pairs of the 8 s
                'use of the raw string is an engine error); exhaustive ast scan that the module-level default constants are '
                'read only by create_interface_config; exhaustive concrete enumeration (back end E) of value strings with '
                'numeric prefixes and of the TOML calculator section.')
-EXTRA = ['scan_setting_reads', 'enumerate_value_strings', 'toml_calculator_section']
+EXTRA = ['scan_setting_reads', 'enumerate_value_strings', 'toml_calculator_section', 'bounded_step_bound',
+         'bounded_step_bound_low_speed', 'rt_integrate']
 NOT_DECIDED = ['"no integration step advances the projectile through the air by more than the configured maximum step" is '
                'decided only as: time step x max(1, pre-step air speed) = half the configured maximum (step clause of '
                '_integrate); the growth of the air speed within the step (<= |g| dt) is not machine-checked, and fails '
-               'below ~3 fps air speed (dt saturates at calc_step): recorded in DESIGN.md (D18)',
+               'below ~3 fps air speed (dt saturates at calc_step): RECORDED FINDING C18-step-low-speed, re-checked on every run by a bounded obligation',
                'the regular expressions of _parse_value are trusted (re is not verified)']
 
 
@@ -141,3 +144,61 @@ def toml_calculator_section(tier, seed):
     if bad:
         o['replay_native'] = ('import sys\nprint(' + repr(bad[0]) + ')\nsys.exit(1)\n')
     return result('enumerate:toml', [o], t0, props=('C18',))
+
+
+def _max_air_step(P, calc, shot, wind_fps=(0.0, 0.0)):
+    """largest advance through the air between successive integration states (time_step tiny: every state is a row)"""
+    import math
+    try:
+        tr = calc.fire(shot, P.Unit.Yard(60), P.Unit.Yard(60), extra_data=True, time_step=1e-9).trajectory
+    except P.RangeError as e:
+        tr = e.incomplete_trajectory
+    mx = 0.0
+    for a, b in zip(tr, tr[1:]):
+        dt = b.time - a.time
+        dx = (b.distance >> P.Unit.Foot) - (a.distance >> P.Unit.Foot) - wind_fps[0] * dt
+        dy = (b.height >> P.Unit.Foot) - (a.height >> P.Unit.Foot)
+        dz = (b.windage >> P.Unit.Foot) - (a.windage >> P.Unit.Foot) - wind_fps[1] * dt
+        mx = max(mx, math.sqrt(dx * dx + dy * dy + dz * dz))
+    return mx, len(tr)
+
+
+def bounded_step_bound(tier, seed):
+    import random
+    from pyvc.bounded import pkg, mk
+    from pyvc.scan import result
+    P = pkg()
+    rng = random.Random(1800 + seed)
+    t0 = time.time()
+    bad = None
+    cases = 0
+    for k in range(4 if tier == 'quick' else 20):
+        mstep = rng.choice([0.5, 0.2, 1.0])
+        calc = P.Calculator(_config={'max_calc_step_size_feet': mstep})
+        shot = P.Shot(P.Weapon(P.Unit.Inch(2), 0), P.Ammo(P.DragModel(rng.uniform(0.1, 0.6), P.TableG7), P.Unit.FPS(rng.uniform(300, 3200))),
+                      relative_angle=P.Unit.Degree(rng.uniform(-10, 60)))
+        mx, n = _max_air_step(P, calc, shot)
+        cases += 1
+        if n < 50:
+            bad = f'case {k}: only {n} rows (check broken?)'
+        if mx > mstep * (1 + 1e-9):
+            bad = f'case {k}: a step of {mx} ft with maximum step {mstep} ft'
+    return result('bounded:step-bound', [mk('no-step-longer-than-the-configured-maximum-at-default-velocity-limit', bad is None,
+                  'random loads and elevations, maximum step 0.2/0.5/1.0 ft, default 50 fps velocity limit, no wind: every '
+                  'integration step advances by at most the configured maximum', cases, t0, bad)], t0, props=('C18',))
+
+
+def bounded_step_bound_low_speed(tier, seed):
+    """RECORDED FINDING C18-step-low-speed: below 1 fps of air speed the time step saturates at calc_step seconds and
+    gravity alone moves the projectile further than the maximum step (only reachable with cMinimumVelocity lowered)"""
+    from pyvc.bounded import pkg, mk
+    from pyvc.scan import result
+    P = pkg()
+    t0 = time.time()
+    calc = P.Calculator(_config={'cMinimumVelocity': 0, 'cMaximumDrop': -10})
+    shot = P.Shot(P.Weapon(P.Unit.Inch(2), 0), P.Ammo(P.DragModel(0.3, P.TableG7), P.Unit.FPS(100)), relative_angle=P.Unit.Degree(90))
+    mx, n = _max_air_step(P, calc, shot)
+    ok = mx <= 0.5 * (1 + 1e-9)
+    return result('bounded:step-bound-low-speed', [mk('no-step-longer-than-the-configured-maximum-near-zero-speed', ok,
+                  'vertical 100 fps shot with cMinimumVelocity = 0 (apex reached at ~0 fps), default 0.5 ft maximum step', 1, t0,
+                  None if ok else f'a step of {mx:.3f} ft near the apex')], t0, props=('C18',))
